@@ -722,6 +722,22 @@ pub fn gen_hs_kind(t: &mut Tape, kind: usize, budget: usize) -> MHs {
             let comp = t.bytes(nc);
             let left = b.saturating_sub(2 * ciphers.len());
             let ext = gen_opt_ext(t, left);
+            if t.chance(24) && b >= 120 {
+                // what a TLS 1.3 client really sends (RFC 8446 4.1.2, D.4): legacy version 0x0303, a 32-byte legacy session id in
+                // compatibility mode (or none), only TLS 1.3 suites or those in front of older ones, null compression, supported_versions
+                let n13 = 1 + t.below(4);
+                let mut ciphers: Vec<u16> = (0..n13).map(|_| 0x1301 + t.below(5) as u16).collect();
+                if t.chance(100) {
+                    ciphers.extend(gen_cipher_list(t, 6));
+                }
+                let sid = if t.chance(200) { Some(t.bytes(32)) } else { None };
+                let mut x = Enc::new();
+                MExt::SupportedVersions(vec![0x0304, 0x0303], false).encode(&mut x);
+                if t.bool() {
+                    x.bytes(&gen_opt_ext(t, 80).unwrap_or_default());
+                }
+                return MHs::ClientHello { version: 0x0303, random, sid, ciphers, comp: vec![0], ext: Some(x.buf) };
+            }
             MHs::ClientHello { version, random, sid, ciphers, comp, ext }
         }
         2 => {
@@ -1380,9 +1396,12 @@ impl MDtlsBody {
 impl MDtlsHs {
     pub fn encode(&self, e: &mut Enc) {
         e.u8(self.msg_type);
+        // (both size fields are registered as length fields, so that the corruption and congruence operators of the checks reach them)
+        e.lens.push(crate::wire::LenField { off: e.buf.len(), width: 3, value: self.length as usize, label: "dhs.length" });
         e.u24(self.length);
         e.u16(self.message_seq);
         e.u24(self.fragment_offset);
+        e.lens.push(crate::wire::LenField { off: e.buf.len(), width: 3, value: self.fragment_length as usize, label: "dhs.fragment_length" });
         e.u24(self.fragment_length);
         self.body.encode(e);
     }
@@ -1662,6 +1681,25 @@ pub fn encode_sct_list(l: &[MSct]) -> Enc {
 }
 
 pub fn gen_dh(t: &mut Tape) -> MDh {
+    if t.chance(60) {
+        // the groups servers really use: the RFC 7919 FFDHE primes and the RFC 3526 MODP primes (all start and end with 64 one bits; the
+        // leading bytes are what a parser that "knows" them would look at), with the generator that belongs to them and with others
+        let n = t.pick(&[256usize, 384, 512, 128]);
+        let head: &[u8] = if t.bool() { &[0xff, 0xff, 0xff, 0xff, 0xff, 0xff, 0xff, 0xff, 0xad, 0xf8, 0x54, 0x58, 0xa2, 0xbb, 0x4a, 0x9a, 0xaf, 0xdc, 0x56, 0x20] } else { &[0xff, 0xff, 0xff, 0xff, 0xff, 0xff, 0xff, 0xff, 0xc9, 0x0f, 0xda, 0xa2, 0x21, 0x68, 0xc2, 0x34, 0xc4, 0xc6, 0x62, 0x8b] };
+        let mut p = t.bytes(n);
+        p[..head.len()].copy_from_slice(head);
+        for b in &mut p[n - 8..] {
+            *b = 0xff;
+        }
+        let g = match t.below(6) {
+            0 | 1 => vec![2],
+            2 => vec![5],
+            3 => vec![0, 2],
+            4 => vec![],
+            _ => t.bytes(n),
+        };
+        return MDh { p, g, ys: t.bytes(n) };
+    }
     let p = t.blob(65535);
     let gmax = if t.chance(200) { 4 } else { 65535 };
     MDh { p, g: t.blob(gmax), ys: t.blob(65535) }
@@ -1696,12 +1734,32 @@ pub fn gen_ec_params(t: &mut Tape) -> MEcParams {
             let ps = well_known_primes();
             p = ps[t.below(ps.len())].clone();
         }
-        MEcParams::ExplicitPrime { p, a: t.blob(255), b: t.blob(255), base: t.blob(255), order: t.blob(255), cofactor: t.blob(255) }
+        let base = if t.bool() {
+            let mut v = t.bytes((2 * p.len() + 1).clamp(2, 255));
+            v[0] = 4;
+            v
+        } else {
+            t.blob(255)
+        };
+        MEcParams::ExplicitPrime { p, a: t.blob(255), b: t.blob(255), base, order: t.blob(255), cofactor: t.blob(255) }
     }
 }
 
 pub fn gen_ecdh(t: &mut Tape) -> MEcdh {
-    MEcdh { params: gen_ec_params(t), public: t.blob(255) }
+    let params = gen_ec_params(t);
+    // relations between the fields a validating parser might look for: the public point equal to the curve's base point, the point at
+    // infinity (a single zero byte), an uncompressed point of the right size
+    let public = match (&params, t.below(8)) {
+        (MEcParams::ExplicitPrime { base, .. }, 0 | 1) => base.clone(),
+        (MEcParams::ExplicitPrime { p, .. }, 2) => {
+            let mut v = t.bytes((2 * p.len() + 1).min(255));
+            v[0] = 4;
+            v
+        }
+        (_, 3) => vec![0],
+        _ => t.blob(255),
+    };
+    MEcdh { params, public }
 }
 
 pub fn gen_signed(t: &mut Tape, with_alg: bool) -> MSigned {
